@@ -401,6 +401,7 @@ class Normaliser(object):
             self._inline_new_constants()
             self._fold_delegates()
             self._class_aliases_to_methods()
+            self._keywords_to_positional()
             self._tail_loop_returns()
             self._acquire_release_to_with()
             self._walrus_comprehensions_to_loops()
@@ -493,6 +494,59 @@ class Normaliser(object):
                             out.append(s_)
                     return out
                 fn.body = rewrite(fn.body)
+
+    def _keywords_to_positional(self):
+        """`self._m(a, y=b)` -> `self._m(a, b)` for calls of package functions whose name has one definition with a plain parameter list, when
+        the keywords name the next parameters in their order (arguments are evaluated in the written order either way)"""
+        defs = {}
+        for t in self.trees.values():
+            for n in ast.walk(t):
+                if isinstance(n, ast.ClassDef):
+                    for m in n.body:
+                        if isinstance(m, ast.FunctionDef):
+                            defs.setdefault(m.name, []).append((n, m))
+            for s_ in t.body:
+                if isinstance(s_, ast.FunctionDef):
+                    defs.setdefault(s_.name, []).append((None, s_))
+        sigs = {}
+        for nm, ds in defs.items():
+            if len(ds) != 1 or nm.startswith('__'):
+                continue
+            c, m = ds[0]
+            a = m.args
+            if a.vararg or a.kwarg or a.posonlyargs or a.kwonlyargs:
+                continue
+            static = any(isinstance(d, ast.Name) and d.id == 'staticmethod' for d in m.decorator_list)
+            if any(not (isinstance(d, ast.Name) and d.id == 'staticmethod') for d in m.decorator_list):
+                continue
+            params = [x.arg for x in a.args]
+            sigs[nm] = (c, params[(0 if (c is None or static) else 1):])
+        norm_ = self
+
+        class T(ast.NodeTransformer):
+            def visit_Call(self_, c):
+                self_.generic_visit(c)
+                f = c.func
+                nm = f.attr if isinstance(f, ast.Attribute) and isinstance(f.value, ast.Name) else f.id if isinstance(f, ast.Name) else None
+                if nm not in sigs or not c.keywords or any(k.arg is None for k in c.keywords) or any(isinstance(x, ast.Starred) for x in c.args):
+                    return c
+                cls_, params = sigs[nm]
+                if isinstance(f, ast.Attribute) and not (cls_ is not None and (f.value.id == 'self' or f.value.id == cls_.name or f.value.id == 'cls')):
+                    return c
+                if isinstance(f, ast.Name) and cls_ is not None:
+                    return c
+                rest = params[len(c.args):]
+                kws = [k.arg for k in c.keywords]
+                if kws != rest[:len(kws)]:
+                    return c
+                c.args = list(c.args) + [k.value for k in c.keywords]
+                c.keywords = []
+                norm_.kw_count = getattr(norm_, 'kw_count', 0) + 1
+                return c
+        for t in self.trees.values():
+            T().visit(t)
+        if getattr(self, 'kw_count', 0):
+            self.inlined.append(('keyword arguments', str(self.kw_count), 'to-positional'))
 
     def _class_aliases_to_methods(self):
         """`name = staticmethod(f)` in a class body, f a function of the same module: the class has that static method (a copy of f's
@@ -1769,7 +1823,9 @@ class Normaliser(object):
                                                 for y in sub:
                                                     out.extend(own_breaks(y.body if isinstance(y, ast.ExceptHandler) else [y]))
                                 return out
-                            if len(own_breaks(s.body)) == 1 and not any(isinstance(y, (ast.Continue,)) for x in g.body for y in ast.walk(x)):
+                            # a bare `if c: break` guard is the loop condition whatever other exits the body has; with statements before the
+                            # break (run only on that exit) the guard has to be the loop's only exit
+                            if (len(g.body) == 1 or len(own_breaks(s.body)) == 1) and not any(isinstance(y, (ast.Continue,)) for x in g.body for y in ast.walk(x)):
                                 new_loop = ast.copy_location(ast.While(test=_negate(g.test), body=s.body[1:] or [ast.Pass()], orelse=[]), s)
                                 b[i:i + 1] = [new_loop] + g.body[:-1]
                                 w_ += 1
